@@ -36,6 +36,7 @@ func ScenarioDigest(sc *Scenario) uint64 {
 // the failing case has then been written to the violation file.
 func Check(rec *vkit.Recorder, test string, sc *Scenario, judge Judge, execs int) string {
 	d := ScenarioDigest(sc)
+	vkit.Begin(rec.Prop, test, sc)
 	for i := 0; i < execs; i++ {
 		// copy through JSON so that an execution can never change the case
 		var c Scenario
@@ -44,6 +45,16 @@ func Check(rec *vkit.Recorder, test string, sc *Scenario, judge Judge, execs int
 		c.RandSeed = sc.RandSeed + int64(i)
 		tr := Exec(&c)
 		vd := judge(&c, tr)
+		if c.Wire {
+			vd.Classes = append(vd.Classes, "wire/real-pkg-api-client")
+			for ri := range c.Replicas {
+				for si := range c.Replicas[ri].Shards {
+					if sp := &c.Replicas[ri].Shards[si]; !sp.InSync() && sp.Ready {
+						vd.Classes = append(vd.Classes, "wire/failure-shape/"+map[bool]string{true: "conn", false: sp.FailShape}[sp.FailShape == ""])
+					}
+				}
+			}
+		}
 		rec.Eval(vd.NonTrivial, d, vd.Classes...)
 		if vd.NonTrivial && i == 0 {
 			rec.Sample(map[string]interface{}{"scenario": &c, "classes": vd.Classes})
@@ -70,5 +81,48 @@ func ReplayAll(rec *vkit.Recorder, test string, judge Judge, execs int) []string
 		}
 		rec.Class("replayed-case")
 	}
+	// stored multi-cycle histories (written by the Test<ID>Hist units)
+	for _, r := range vkit.LoadReplays(rec.Prop, test+"Hist") {
+		var h struct {
+			History []*Scenario `json:"history"`
+		}
+		if err := json.Unmarshal(r.Case, &h); err != nil || len(h.History) == 0 {
+			fails = append(fails, fmt.Sprintf("%s: history does not decode: %v", r.Note, err))
+			continue
+		}
+		if msg := CheckHist(rec, test+"Hist", h.History, judge, execs); msg != "" {
+			fails = append(fails, fmt.Sprintf("%s: %s", r.Note, msg))
+		}
+		rec.Class("replayed-history")
+	}
 	return fails
+}
+
+// CheckHist executes a multi-cycle history on one coordinator instance execs times and judges every cycle.
+func CheckHist(rec *vkit.Recorder, test string, scs []*Scenario, judge Judge, execs int) string {
+	vkit.Begin(rec.Prop, test, map[string]interface{}{"history": scs})
+	for e := 0; e < execs; e++ {
+		run := make([]*Scenario, len(scs))
+		for i := range scs {
+			var c Scenario
+			b, _ := json.Marshal(scs[i])
+			_ = json.Unmarshal(b, &c)
+			c.RandSeed += int64(e)
+			run[i] = &c
+		}
+		trs := ExecSeq(run)
+		for k := range run {
+			vd := judge(run[k], trs[k])
+			cls := append([]string{fmt.Sprintf("history/cycle-%d", k+1)}, vd.Classes...)
+			rec.Eval(vd.NonTrivial && k > 0, vkit.Digest("hist", ScenarioDigest(scs[0]), ScenarioDigest(scs[k]), k), cls...)
+			if bad := rec.Filter(vd.Violations); len(bad) > 0 {
+				for i := range bad {
+					bad[i].Msg = fmt.Sprintf("cycle %d of a %d-cycle history: %s", k+1, len(run), bad[i].Msg)
+				}
+				p := vkit.SaveViolation(rec.Prop, test, map[string]interface{}{"history": run, "failingCycle": k}, bad, trs[k])
+				return fmt.Sprintf("%s (replay %s)", bad[0], p)
+			}
+		}
+	}
+	return ""
 }
